@@ -26,7 +26,13 @@ func init() {
 var phiName = regexp.MustCompile(`φ[A-Za-z_0-9]+(⟨[^⟩]*⟩)?`)
 
 func runC18(c *Ctx) {
-	defer c.shared("R10", "C01/R6", "only a dangling %% is an error, and `%%%%` or a directive at the very end of the format is not: every byte of the format is read under a bound established for that very index (a test hoisted out of the scan, such as `the format ends in %%`, does not establish it)", keyHas("nativePrintf"), func(s *Ctx) { indexGuards(s, "R6") })
+	defer c.shared("R10", "C01/R6", "only a dangling %% is an error, and `%%%%` or a directive at the very end of the format is not: every byte of the format is read under a bound established for that very index (a test hoisted out of the scan, such as `the format ends in %%`, does not establish it)", func(o Obligation) bool {
+		if strings.Contains(o.Key, "nativePrintf") {
+			return true
+		}
+		_, fmtFn, _ := printfFormatter(c.P)
+		return fmtFn != nil && strings.Contains(o.Key, shortName(fmtFn))
+	}, func(s *Ctx) { indexGuards(s, "R6") })
 	defer c.shared("R8", "C09/R3", "an argument of the wrong kind is an error: the copy made when arguments are evaluated keeps the kind (a regex stays a regex, so %%s rejects it)", keyHas("copy Value"), c09R3)
 	defer c.shared("R7", "C17/R2", "%f is replaced by the rendering of the number: String() and the renderer produce FormatFloat(x, 'f', -1, 64) and nothing else (no integer fast path)", ruleIs("R2"), runC17)
 	defer c.shared("R6", "C08/R4", "each directive shows the value its argument had when it was evaluated: call arguments (printf's included) are evaluated into cells of their own, so a later argument's side effect cannot change an earlier one", keyHas("call-arguments-copied"), c08R4)
